@@ -59,7 +59,8 @@ ASSUMPTIONS = [
 ]
 
 ENV = dict(os.environ)
-ENV['ASAN_OPTIONS'] = 'detect_leaks=0:symbolize=0:abort_on_error=0:allocator_may_return_null=1:detect_stack_use_after_return=0:handle_abort=0'
+# quarantine: a child frees a few MB at most, 64 MB keeps every discarded block poisoned for the child's lifetime
+ENV['ASAN_OPTIONS'] = 'detect_leaks=0:symbolize=0:abort_on_error=0:allocator_may_return_null=1:detect_stack_use_after_return=0:handle_abort=0:quarantine_size_mb=64'
 ENV['UBSAN_OPTIONS'] = 'print_stacktrace=1:halt_on_error=1:symbolize=0'
 ENV['LC_ALL'] = 'C'
 if LIBDIR:
@@ -743,6 +744,7 @@ class Run(object):
         self.known_sig_counts = Counter()
         self.order_dependent = 0
         self.survey = {}
+        self.inconclusive_samples = []
         self.cold_warm_differ = 0
         self.isolated_scenarios = 0
         self.forks = 0
@@ -806,6 +808,9 @@ class Run(object):
         for b in res['bad']:
             if b['kind'] in INFRA_KINDS:
                 self.inconclusive += 1
+                if len(self.inconclusive_samples) < 5:
+                    self.inconclusive_samples.append(dict(scenario_hash=h, steps=sc['steps'], isolate=sc.get('isolate'), k=b['k'], kind=b['kind'],
+                                                          note=b.get('note'), fault_step=b.get('fault_step_text'), scenario=sc if SURVEY else None))
                 continue
             sig = describe(b)
             self.classify(sig, sc, b['k'], _slim(b), source)
@@ -852,6 +857,7 @@ def write_evidence(run, wall, violations, exhaustive=True):
             known_signatures=dict(run.known_sig_counts.most_common(60)),
             unknown_signatures=dict(run.unknown_sig_counts.most_common(40)),
             inconclusive=run.inconclusive,
+            inconclusive_samples=run.inconclusive_samples,
             order_dependent_deaths=run.order_dependent,
             scenarios_fork_per_k_cold=run.isolated_scenarios,
             scenarios_cold_warm_numbering_differs=run.cold_warm_differ,
